@@ -311,9 +311,8 @@ Proof.
         destruct v1; inversion H; subst; exact Z.
       * ib H. eapply ext_trans; [eapply IHe; eauto|]. destruct (truthy v0); eapply IHe; eauto.
       * (* array literal *)
-        destruct es as [|a r]; [inversion H; apply ext_refl|].
-        ib H. ib H. unfold i_arr in H. destruct (ints_of v1); inversion H; subst.
-        eapply ext_trans; [eapply IHe; exact E|]. eapply (iargs_mono _ IHe (a :: r)); exact E0.
+        ib H. unfold i_arr in H. destruct (ints_of v0); inversion H; subst.
+        eapply (iargs_mono _ IHe es); exact E.
       * (* at *)
         ib H. ib H. eapply ext_trans; [eapply IHe; exact E|]. eapply ext_trans; [eapply IHe; exact E0|].
         unfold i_at in H. destruct v1; try (inversion H; subst; apply ext_refl).
